@@ -47,8 +47,33 @@ static void run_case(CaseCtx& c)
     c.obs.params.str("route", cli_route ? "cli" : "api");
     c.announce(std::string("ex") + std::to_string(cfg.extrapolation) + "/cycle" + std::to_string(cfg.cycle) + (cfg.fmg ? "/fmg" : "/nofmg"));
 
-    std::unique_ptr<GMGPolar> g = cli_route ? cfg.make_cli() : cfg.make_api();
+    // history: in 20% of the pointer-route cases the judged solve is the second one on the object; the first one ran with
+    // other solve-time options (norm type, cycle, FMG cycle/iterations, loose tolerances) -- the stop test and the
+    // reported factor of a solve refer to this solve only
+    const bool after_earlier_solve = !cli_route && rng.coin(0.2);
+    SolverConfig first = cfg;
+    if (after_earlier_solve) {
+        first.norm = (cfg.norm + rng.range(1, 2)) % 3;
+        first.cycle = rng.range(0, 2);
+        first.fmg_iters = rng.range(0, 3);
+        first.fmg_cycle = rng.range(0, 2);
+        first.abs_tol = rng.pick({1e-2, 1e-4, -1.0});
+        first.rel_tol = rng.pick({1e-2, 1e-4});
+        first.maxIterations = rng.pick({2, 4, 30});
+    }
+    c.obs.params.str("history", after_earlier_solve ? "second-solve-after-other-solve-options" : "first-solve");
+    std::unique_ptr<GMGPolar> g = cli_route ? cfg.make_cli() : (after_earlier_solve ? first.make_api() : cfg.make_api());
     g->setup();
+    if (after_earlier_solve) {
+        g->solve();
+        g->residualNormType(static_cast<ResidualNormType>(cfg.norm));
+        g->multigridCycle(static_cast<MultigridCycleType>(cfg.cycle));
+        g->FMG_iterations(cfg.fmg_iters);
+        g->FMG_cycle(static_cast<MultigridCycleType>(cfg.fmg_cycle));
+        g->absoluteTolerance(cfg.abs_tol);
+        g->relativeTolerance(cfg.rel_tol);
+        g->maxIterations(cfg.maxIterations);
+    }
     g->solve();
     const PolarGrid& grid = g->grid();
     const int n = grid.numberOfNodes();
@@ -134,6 +159,7 @@ static void run_case(CaseCtx& c)
     sig.str("geom", geom_name(cfg.ps.geom)).str("prob", prob_name(cfg.ps.prob)).str("prof", prof_name(cfg.ps.prof)).b("dirbc", cfg.dirbc);
     sig.str("strategy", cfg.strategy ? (std::string("give") + char('0' + cfg.cache_prof + 2 * cfg.cache_geo)) : "take").i("extrap", cfg.extrapolation).i("cycle", cfg.cycle);
     sig.str("fmg", cfg.fmg ? ("fmg" + std::to_string(cfg.fmg_cycle) + "x" + std::to_string(cfg.fmg_iters)) : "off").i("levels", nlev).i("norm", cfg.norm);
+    sig.b("second_solve", after_earlier_solve);
     c.obs.top.obj("sig", sig);
     c.obs.top.b("nontrivial", its >= 2 && nrm0 > 0);
     c.obs.info.b("in_rate_set", in_rate_set).b("early_stop", early);
